@@ -43,6 +43,10 @@ func init() {
 		return nil
 	})
 	reg("(*sync.Mutex).TryLock", func(e *Exec, fn *ssa.Function, a []Value) Value {
+		if e.pr != nil {
+			// process mode: an event with two outcomes; the transition system enables "acquired" only when the mutex is free
+			return Bool{C: e.procSyncN("trylock", a[0].(Ptr), 2) == 1}
+		}
 		k := e.lockKeyOf(a[0])
 		if e.locks[k] != 0 {
 			return Bool{C: false}
